@@ -76,8 +76,9 @@ is_ipv6 (const char *start, const char *end)
     int     len = 0;
 
 
-    for ( ; cp < (unsigned char *) end; ) {
-        switch (*cp) {
+    for (;;) {
+        /* the end of the range terminates the address like a NUL does */
+        switch ((cp < (unsigned char *) end) ? *cp : 0) {
         case 0:
             /* Terminate the loop. */
             if (field < 2) {
@@ -135,8 +136,6 @@ is_ipv6 (const char *start, const char *end)
         } break;
         } /* switch */
     } /* for (;;) */
-
-    return (YES);
 }
 
 
